@@ -154,8 +154,15 @@ func (c *controller) advance(a *sactor, targets []string, start func(), quiet ti
 
 func sortedKeys(m map[point]val) []int64 {
 	ks := []int64{}
-	for p := range m {
-		ks = append(ks, p.K)
+	for p, x := range m {
+		// a batch b >= 1000 overwrites the point at time b%1000 (value b): the reported batch is the VALUE found at the
+		// time (for b < 1000 value = time), so the newest write of a point is what a view must show
+		if x.W != wOf(x.V) {
+			ks = append(ks, -1) // torn row
+			continue
+		}
+		_ = p
+		ks = append(ks, x.V)
 	}
 	sort.Slice(ks, func(i, j int) bool { return ks[i] < ks[j] })
 	return ks
@@ -251,7 +258,7 @@ func runCase(cs schedCase) (out schedOut) {
 		case "W":
 			if st%2 == 0 {
 				b := a.spec.Bs[st/2]
-				err := writeRows(sh, []influx.Row{mkRow(1, b, b)})
+				err := writeRows(sh, []influx.Row{mkRow(1, b%1000, b)})
 				if err != nil {
 					trace(a, fmt.Sprintf("write %d rejected", b))
 				} else {
